@@ -30,7 +30,7 @@ from concurrent.futures import ThreadPoolExecutor
 from pathlib import Path
 
 from harness import c14_gen as G
-from harness import core, extract_stash
+from harness import c14_globals, core, extract_stash
 
 PROP_MODULES = ["OV.Props.C14"]
 SEEDS = ["0", "1", "2", "3", "random"]
@@ -358,6 +358,10 @@ class Checker:
             if res.get("err"):
                 self.stats["ops_raising"] += 1
             case = {"kind": "single", "op": op, "seed": seed}
+            if res.get("unexpected"):
+                self.stats["ops_raising_unexpectedly"] += 1
+                self.tie_failures.append((case, f"operation {op['k']} raised {res['err']} inside the implementation where the model expects a result: {res['unexpected'][-300:]}"))
+                continue
             if op["k"] == "script" and not res.get("err"):
                 self.stats["scripts_translated"] += 1
                 if res.get("repeat_equal") is False:
@@ -385,6 +389,20 @@ class Checker:
                     self.globals_case(op, res, case)
                 for kind_, outs in res.get("ctrl_outputs", []):
                     self.stats[f"ctrl_{kind_}_outputs_{min(len(outs), 5)}"] += 1
+            elif op["k"] == "header" and not res.get("err"):
+                nd = lambda d_: d_ or "~"  # noqa: E731
+                exp = ";".join(f"{nd(dm)}={v}" for dm, v in res["imports"]) + f" ir={res['ir_version']}"
+                self.model_lines.append((G.header_line(op, res), exp, case))
+                self.stats["header_cases"] += 1
+                self.stats["header_graph_without_std_opset"] += int(not any(dm == "" for dm, _ in res["graph_imports"]))
+                self.stats["header_std_from_function"] += int(not any(dm == "" for dm, _ in res["graph_imports"]) and any(f_[2] is not None for f_ in res["funcs"]))
+                self.stats["header_with_opset_version_kw"] += int("opset_version" in op.get("kw", {}))
+                no_std_anywhere = not any(dm == "" for dm, _ in res["graph_imports"]) and not any(f_[2] is not None for f_ in res["funcs"])
+                self.stats["header_std_from_kw_or_latest"] += int(no_std_anywhere)
+                self.stats["header_std_from_opset_version_kw"] += int(no_std_anywhere and "opset_version" in op.get("kw", {}))
+                self.stats[f"header_called_functions_{min(len(res['funcs']), 3)}"] += 1
+            elif op["k"] == "header":
+                self.stats["header_refused"] += 1
             elif op["k"] in ("pattern", "evalctx"):
                 # `evaluator.default_as` is the same state machine as `pattern_builder` (swap a module global, try/finally)
                 self.stats["evalctx" if op["k"] == "evalctx" else "pattern"] += 1
@@ -445,8 +463,16 @@ class Checker:
             self.stats["kwseq_cases"] += 1
             self.stats["kwseq_calls"] += len(op["calls"])
             self.stats["ops_executed"] += 2
-            if full.get("err") or fresh.get("err"):
-                raise core.Infra(f"kwseq case failed to run: {full.get('err') or fresh.get('err')}")
+            if full.get("err") and not fresh.get("err"):
+                self.prop_failures.append((case, f"to_model_proto after a history of to_model_proto(**overrides) calls raises ({full.get('err')}) while the same call in fresh state succeeds"))
+                continue
+            if fresh.get("err"):
+                # the implementation refuses the case even without any history: nothing to compare; counted, and the
+                # run fails as infrastructure only if this is the rule rather than the exception
+                self.stats["kwseq_refused_fresh"] += 1
+                if self.stats["kwseq_refused_fresh"] > 0.3 * len(ops):
+                    self.tie_failures.append((case, f"to_model_proto(**overrides) cases are refused by the implementation in fresh state ({fresh.get('err')}) — the model expects them to succeed"))
+                continue
             ti = op["target"][0]
             same_deco = sum(1 for fi, _ in op["calls"] if fi != ti and op["fns"][fi] == op["fns"][ti])
             self.stats["kwseq_calls_on_siblings_of_target"] += same_deco
@@ -596,6 +622,25 @@ def regen_tables(run: core.Run) -> dict:
     else:
         with core.lake_lock():
             _, changed = extract_stash.write_lean(data, core.LEAN)
+    gdata = c14_globals.extract(core.REPO)
+    ggen = core.LEAN / "OV" / "Gen" / "C14Globals.lean"
+    if not (ggen.exists() and ggen.read_text() == c14_globals.emit_lean(gdata)):
+        with core.lake_lock():
+            c14_globals.write_lean(gdata, core.LEAN)
+    data["globals"] = gdata
+    WOK = {"restore", "setter", "register", "classdef", "lru_cache", "entry", "guarded"}
+    wok = lambda w: w["tag"] in WOK or (w["tag"] == "memo" and set(w["usedParams"]) <= set(w["keyParams"]))  # noqa: E731
+    run.coverage["globals_table"] = {
+        "files_scanned": len(gdata["files"]),
+        "objects": len(gdata["globalRows"]),
+        "never_written_after_import": sum(1 for r in gdata["globalRows"] if not r["writes"]),
+        "written_rows": {r["name"]: sorted({w["tag"] for w in r["writes"]}) for r in gdata["globalRows"] if r["writes"]},
+        "rows_not_ok": sorted(r["name"] for r in gdata["globalRows"] if not all(wok(w) for w in r["writes"])),
+        "register_calls_in_functions": gdata["registerCallsInFunctions"],
+        "entry_rows": {r["name"] + "." + r["entry"]: {"earlyReads": r["earlyReads"], "helperReads": r.get("helperReads", []), "mayWrite": r["mayWrite"]} for r in gdata["entryRows"]},
+        "set_iteration_sites": len(gdata["setIterSites"]),
+        "set_iteration_order_sensitive": [f"{s['file']}:{s['line']} {s['func']} {s['sink']}" for s in gdata["setIterSites"] if s["orderSensitive"]],
+    }
     run.coverage["stash_table"] = {
         "rule_classes": len(data["rules"]),
         "ort_fusion_classes": len(data["ortRules"]),
@@ -670,7 +715,23 @@ def replay(run: core.Run, pool: Pool, chk: Checker, case: dict) -> None:
     chk.model_ties()
 
 
+def tree_stamp() -> str:
+    """(path, mtime, size) of every Python file of the package under test: the check compares several interpreters that
+    import the package at different moments, so the tree must not change while it runs"""
+    import hashlib
+
+    h = hashlib.sha1()
+    for p in sorted((core.REPO / "onnxscript").rglob("*.py")):
+        try:
+            st = p.stat()
+        except OSError:
+            continue
+        h.update(f"{p}:{st.st_mtime_ns}:{st.st_size};".encode())
+    return h.hexdigest()
+
+
 def main(run: core.Run) -> None:
+    stamp0 = tree_stamp()
     run.assumptions += [
         "A-py: CPython set iteration order is an arbitrary permutation chosen per PYTHONHASHSEED; protobuf SerializeToString() "
         "is a function of the message (no map fields in ONNX protos)",
@@ -699,6 +760,32 @@ def main(run: core.Run) -> None:
             corpus = [json.loads(l) for l in CORPUS.read_text().splitlines() if l.strip()] if CORPUS.exists() else []
             chk.differential(corpus + directed_pairs(run.rng), monitor_every=1)
             run.coverage["directed_s"] = round(time.time() - t0, 1)
+            # dynamic validation of the globals table: objects classified "never written after import" keep their fingerprint
+            grow = [[r["file"], r["name"].split(":", 1)[1]] for r in rows["globals"]["globalRows"] if not r["kind"].startswith("functools") and r["kind"] != "global"]
+            frozen = {f"{r['file']}:{r['name'].split(':', 1)[1]}" for r in rows["globals"]["globalRows"] if not r["writes"]}
+            gjobs = [(sd, {"id": f"gfp-f-{sd}", "ops": [{"k": "gfp", "rows": grow}]}) for sd in SEEDS[:3]]
+            for gi in range(run.size(6, 30)):
+                hist = [strip_op(G.gen_history_op(run.rng, 9000 + gi * 10 + k)[0]) for k in range(run.rng.randint(3, 8))]
+                gjobs.append((SEEDS[gi % 3], {"id": f"gfp-h{gi}", "ops": hist + [{"k": "gfp", "rows": grow}]}))
+            greps = pool.run(gjobs)
+            base_fp = {sd: rep["results"][-1]["fp"] for (sd, _), rep in zip(gjobs[:3], greps[:3])}
+            for (sd, req), rep in zip(gjobs[3:], greps[3:]):
+                infra_check(rep)
+                fp = rep["results"][-1]["fp"]
+                chk.stats["globals_fingerprint_histories"] += 1
+                for key, v in fp.items():
+                    chk.stats["globals_fingerprints_compared"] += 1
+                    if v != base_fp[sd][key]:
+                        chk.stats["globals_changed:" + key.split("/")[-1]] += 1
+                        if key in frozen:
+                            chk.tie_failures.append(({"kind": "gfp", "object": key, "history": req["ops"][:-1], "seed": sd},
+                                                     f"{key} is classified 'never written after import' by the generated table but its contents changed during a history of {len(req['ops']) - 1} operations"))
+            hpairs = []
+            for hi in range(run.size(24, 200)):
+                hop = G.gen_header(run.rng)[0]
+                hist = [G.gen_header(run.rng)[0] for _ in range(run.rng.randint(0, 3))]
+                hpairs.append({"tag": "header:to_model_proto opset imports / ir_version", "history": hist, "target": hop})
+            chk.differential(hpairs, seeds_fresh=SEEDS[:2])
             kw_ops = [{"k": "kwseq", "decos": [{}], "fns": [0, 0], "calls": [[1, {"producer_name": 7}]], "target": [0, {}]},
                       {"k": "kwseq", "decos": [{"producer_name": 1}], "fns": [0], "calls": [[0, {"ir_version": 9, "io_types": 7}]], "target": [0, {"doc_string": 2}]}]
             kw_ops += [G.gen_kwseq(run.rng)[0] for _ in range(run.size(40, 400))]
@@ -768,6 +855,10 @@ def main(run: core.Run) -> None:
     finally:
         pool.close()
 
+    if tree_stamp() != stamp0:
+        raise core.Infra(f"{core.REPO}/onnxscript changed while the check was running (interpreters started at different moments "
+                         "imported different code): re-run")
+
     # ---- verdict
     findings = {f["id"]: f for f in run.open_findings()}
     for case, what in chk.d15_hits[:1]:
@@ -813,10 +904,15 @@ def main(run: core.Run) -> None:
                       + " pass the user's object to ir.tensor() without a snapshot, but no generated script showed a changed proto",
                       no_input=True)
     if not audit["ok"]:
-        bad = run.coverage["stash_table"]["rows_not_ok"] + run.coverage["stash_table"]["ort_rows_not_ok"]
+        gt = run.coverage["globals_table"]
+        bad = (run.coverage["stash_table"]["rows_not_ok"] + run.coverage["stash_table"]["ort_rows_not_ok"]
+               + ["global:" + n for n in gt["rows_not_ok"] if n != "_pattern_ir:ANY_VALUE"]
+               + ["register-in-function:" + n for n in gt["register_calls_in_functions"]]
+               + ["entry:" + k for k, v in gt["entry_rows"].items() if (v["earlyReads"] or v["helperReads"]) and not k.startswith("Converter.")]
+               + ["set-iteration:" + x for x in gt["set_iteration_order_sensitive"] if "_translate_nested_function_def" not in x])
         if not chk.prop_failures:
             run.violation({"broken": "proof obligations of OV.Props.C14", "rows_not_ok": bad, "problems": audit["problems"], "log": audit["build_log"][-1500:]},
-                          "Lean proof obligations for C14 do not check (rule classes violating the stash discipline: " + ", ".join(bad or ["-"]) + "): " + "; ".join(audit["problems"][:3]),
+                          "Lean proof obligations for C14 do not check (generated-table rows outside the discipline: " + ", ".join(bad or ["-"]) + "): " + "; ".join(audit["problems"][:3]),
                           no_input=True)
 
     st = chk.stats
@@ -839,5 +935,20 @@ def main(run: core.Run) -> None:
             raise core.Infra("too few history runs executed")
         if st["ops_raising"] == 0 or st["try_rewrite_events"] == 0:
             raise core.Infra("generator degenerated: no failing operation or no monitored try_rewrite in the run")
+        required = [
+            "try_rewrite_events", "stash_event:ReshapeReshape:ok", "stash_event:ReshapeReshape:fail", "stash_event:FuseConvPad:ok",
+            "stash_event:FuseConvPad:fail", "stash_event:MaterializeReshapeShape:ok", "stash_event:Flatten2Reshape:ok",
+            "stash_event:LayerNormFusion:ok", "pattern_raised", "pattern_normal", "fold_modified", "fold_unmodified",
+            "ctrl_sites", "ctrl_sites_iteration_unsorted", "uniq_calls", "as_function_rewrites", "kwseq_calls_on_siblings_of_target",
+            "kwseq_calls_on_target", "ndarray_scripts_inplace_touching_body", "evalctx", "globals_fingerprint_histories",
+            "true_fresh_processes", "history_failing_ops", "script_override_calls", "global_mutations_checked", "kw_model_lines",
+            "header_cases", "header_graph_without_std_opset", "header_std_from_function", "header_with_opset_version_kw", "header_std_from_kw_or_latest", "header_std_from_opset_version_kw",
+        ]
+        zero = [k for k in required if not st[k]]
+        if not (st["multi_domain_new_2"] + st["multi_domain_new_3"] + st["multi_domain_new_4"]):
+            zero.append("multi_domain_new_>=2")
+        run.coverage["required_counters"] = {k: st[k] for k in required}
+        if zero:
+            raise core.Infra("required coverage counters are zero (generator/monitor degenerated): " + ", ".join(zero))
         if st["target_raises_when_fresh"] > 0.3 * st["pairs"]:
             raise core.Infra("generator degenerated: >30% of targets raise in a fresh process")
